@@ -118,6 +118,11 @@ pub(super) struct State {
     /// Last time the atomic was accessed for a store or rmw operation.
     last_non_load_access: Option<Access>,
 
+    /// Last time each thread accessed the atomic for a load operation. A store
+    /// or rmw is dependent with all of them, not only with the most recent
+    /// access.
+    last_load_accesses: [Option<Access>; MAX_THREADS],
+
     /// Currently tracked stored values. This is the `MAX_ATOMIC_HISTORY` most
     /// recent stores to the atomic cell in loom execution order.
     stores: [Store; MAX_ATOMIC_HISTORY],
@@ -415,6 +420,7 @@ impl State {
             is_mutating: false,
             last_access: None,
             last_non_load_access: None,
+            last_load_accesses: Default::default(),
             stores: Default::default(),
             cnt: 0,
         };
@@ -828,20 +834,76 @@ impl State {
     }
 
     /// Returns the last dependent access
-    pub(super) fn last_dependent_access(&self, action: Action) -> Option<&Access> {
+    /// Returns the most recent access that `action`, performed by a thread
+    /// whose DPOR clock is `version`, is dependent with and that did not happen
+    /// before it (or any dependent access if all of them happened before).
+    pub(super) fn last_dependent_access(
+        &self,
+        action: Action,
+        version: &VersionVec,
+    ) -> Option<&Access> {
         match action {
             Action::Load => self.last_non_load_access.as_ref(),
-            _ => self.last_access.as_ref(),
+            _ => {
+                // Stores / RMWs are dependent with the last store / RMW and
+                // with the loads of *every* thread.
+                let mut ret: Option<&Access> = None;
+
+                for access in self.dependent_with_non_load() {
+                    if access.happens_before(version) {
+                        continue;
+                    }
+
+                    if ret.map_or(true, |ret| ret.path_id() < access.path_id()) {
+                        ret = Some(access);
+                    }
+                }
+
+                ret.or(self.last_access.as_ref())
+            }
         }
     }
 
-    /// Sets the last dependent access
-    pub(super) fn set_last_access(&mut self, action: Action, path_id: usize, version: &VersionVec) {
+    /// Joins the DPOR clocks of all accesses `action` is dependent with.
+    pub(super) fn join_dependent_accesses(&self, action: Action, version: &mut VersionVec) {
+        match action {
+            Action::Load => {
+                if let Some(access) = self.last_non_load_access.as_ref() {
+                    version.join(access.version());
+                }
+            }
+            _ => {
+                for access in self.dependent_with_non_load() {
+                    version.join(access.version());
+                }
+            }
+        }
+    }
+
+    fn dependent_with_non_load(&self) -> impl Iterator<Item = &Access> {
+        self.last_non_load_access
+            .iter()
+            .chain(self.last_load_accesses.iter().flatten())
+    }
+
+    pub(super) fn set_last_access(
+        &mut self,
+        action: Action,
+        thread_id: thread::Id,
+        path_id: usize,
+        version: &VersionVec,
+    ) {
         // Always set `last_access`
         Access::set_or_create(&mut self.last_access, path_id, version);
 
         match action {
-            Action::Load => {}
+            Action::Load => {
+                Access::set_or_create(
+                    &mut self.last_load_accesses[thread_id.as_usize()],
+                    path_id,
+                    version,
+                );
+            }
             _ => {
                 // Stores / RMWs
                 Access::set_or_create(&mut self.last_non_load_access, path_id, version);
